@@ -73,6 +73,24 @@ var vpReadOps = []vpReadOp{
 		}
 		return []byte(y.GetLink())
 	}},
+	{"collection-path-getters", func(x Item) []byte {
+		var out []byte
+		for _, c := range []CollectionPath{Inbox, Outbox, Followers, Liked, Likes, Shares, Replies} {
+			out = append(out, c.IRI(x)...)
+			if v := c.Of(x); v != nil {
+				out = append(out, v.GetLink()...)
+			}
+		}
+		// ... and asked about a list of items
+		list := ItemCollection{x, IRI("https://h.ex/m7")}
+		for _, c := range []CollectionPath{Inbox, Replies} {
+			if v := c.Of(list); v != nil {
+				out = append(out, byte(len(DerefItem(v))))
+			}
+		}
+		out = append(out, byte(len(list)))
+		return out
+	}},
 	{"text-marshalers", func(x Item) []byte {
 		// the text forms of the language values and their parts (entries whose text has spare capacity:
 		// a writer that adopts the text's own slice as its buffer writes into memory it shares)
